@@ -5,12 +5,13 @@ CONSTANTS
   RepairedGen = TRUE
   Sections <- S_Aa
   Names <- N_kK
-  Values <- V_3
+  Values <- V_4w
   ExtraLines <- X_min
   Styles = {"lf", "mix"}
   MaxTextLines = 1
   MaxLines = 1000
   MaxDepth = 3
+  SimTextLines = 3
   Alphabet = {}
 INVARIANTS EmitInv
 CHECK_DEADLOCK FALSE
